@@ -456,3 +456,16 @@ def check_c09(pid, tier, replay):
             hs.append(gen_seq.play_history(rng, song, "loop" if rng.random() < 0.9 else "plain"))
         return hs
     return run_seq_family(pid, tier, replay, mk)
+
+
+@register("C08")
+def check_c08(pid, tier, replay):
+    def mk(rng, tier):
+        n = 300 if tier == "quick" else 3000
+        hs = []
+        for i in range(n):
+            song = gen_seq.random_song(rng, maxev=10 if tier == "quick" else 20)
+            # melodic channels only: no percussion minimum-life residue after the seek
+            hs.append(gen_seq.seek_history(rng, song))
+        return hs
+    return run_seq_family(pid, tier, replay, mk)
